@@ -78,6 +78,17 @@ func (w *World) siteVC(pkgPath string, only map[string]bool) (*VC, error) {
 			}
 			for _, b := range fn.Blocks {
 				for _, in := range b.Instrs {
+					// any use other than a plain load (store, address taken,
+					// passed on) counts as a possible write
+					if un, isLoad := in.(*ssa.UnOp); !isLoad || un.Op != token.MUL {
+						if _, isStore := in.(*ssa.Store); !isStore {
+							for _, op := range in.Operands(nil) {
+								if gl, ok := (*op).(*ssa.Global); ok && gl.Name() == g.Name && gl.Pkg == fn.Pkg {
+									bad = append(bad, relName(fn))
+								}
+							}
+						}
+					}
 					switch x := in.(type) {
 					case *ssa.Store:
 						if gl, ok := x.Addr.(*ssa.Global); ok && gl.Name() == g.Name {
